@@ -10,6 +10,7 @@ LEVEL = {
  'C08': ('proof', "frame clause on the str key space of the cache (array equality on the str-keyed map) proved for every table entry on normal and exceptional exits, under the property's own hypothesis that no plugin is installed; the three writers of the interpreter's own 'returned' key are a known finding."),
  'C09': ('proof', "call-site assertion at every run_tape call inside an instruction: effective flags, plugins, contracts and call-stack limit of the sub-tape equal those of the calling tape; flag frame for every instruction other than the two flag instructions; set_tape_flags itself is an assumed contract with a bounded stand-in (labelled)."),
  'C10': ('proof', "int_to_bytes / bytes_to_int bodies verified against the two's-complement spec for ALL integers (unbounded), using ground instances of the pow2 / bitlen laws and the stated assumption A-LOG2; float wrappers: type and length checks proved, bit-exactness is struct's (bounded stand-in, labelled)."),
+ 'C12': ('proof', "termination and no-backward-read of decompile_script for ALL byte strings: the body is verified with a loop variant (unread bytes), a recursion measure (script length strictly decreases at each of the 9 recursive call sites) and size >= 0 at each of the Tape.read call sites on every path (about 180 paths over the whole opcode table); the round-trip and listing-exactness clauses are a bounded stand-in against a reference encoder (labelled bounded in the evidence, not counted as proved)."),
  'C16': ('proof', "the four time instructions refine the window formulas stated in the property for all (t, now, c, threshold) and constraint items of every length."),
  'C19': ('proof', "add/remove/reset of plugins, contracts and signature extensions verified against set-semantics postconditions over the module registries (quantified over all registry contents and scopes): after add the extension is active exactly once, after remove/reset it is not, every other entry is unchanged; run_script / run_auth_scripts read the registries at call time (ensures over the tape they build); histories of operations follow by composition of the per-operation postconditions, with a bounded native history check (labelled bounded) as cross-check."),
  'C20': ('proof', "NOP body refines 'read one signed count byte, remove that many items, nothing else' for all states; run_tape's dispatch never raises KeyError (all 256 codes covered); table partition and NOP compile/decompile handlers checked exhaustively on the live tables (256 x free codes)."),
